@@ -1,7 +1,7 @@
 (** C13 — automata conversions and combinators compute the intended regular languages.
     Statements only; proofs live in C13/Proofs*.v. *)
 From Coq Require Import ZArith List Bool.
-From Algo.C13 Require Import Model Spec Lemmas ProofsNFA ProofsDFA ProofsSM ProofsUnion ProofsStar ProofsSubset ProofsSubsetTerm ProofsElim ProofsMinQuot ProofsMinRound ProofsReindex ProofsCombine ProofsMinimal ProofsMinTerm ProofsIso ProofsIsoNFA ProofsConcat.
+From Algo.C13 Require Import Model Spec Lemmas ProofsNFA ProofsDFA ProofsSM ProofsUnion ProofsStar ProofsSubset ProofsSubsetTerm ProofsElim ProofsMinQuot ProofsMinRound ProofsReindex ProofsCombine ProofsMinimal ProofsMinTerm ProofsIso ProofsIsoNFA ProofsConcat ProofsTrim.
 Import ListNotations.
 Open Scope Z_scope.
 
@@ -73,6 +73,13 @@ Theorem C13_minimal : forall (d m : dfa), dwf d -> dfa_ok d ->
   forall D', dfa_ok D' -> (forall w, daccept D' w = daccept d w) ->
     (length (dstates m) <= length (dstates D'))%nat.
 Proof. exact minimize_minimal. Qed.
+
+(** The same with the executable precondition [dtrim] that the correspondence check evaluates
+    before comparing the state count of the Go result with the Myhill–Nerode count. *)
+Theorem C13_minimal_trim : forall (d m : dfa), dwf d -> dfa_ok d -> dtrim d = true -> minimize d = Ok m ->
+  forall D', dfa_ok D' -> (forall w, daccept D' w = daccept d w) ->
+    (length (dstates m) <= length (dstates D'))%nat.
+Proof. exact minimize_minimal_trim. Qed.
 
 (** ReindexStates terminates and accepts w iff the original does. *)
 Theorem C13_reindex_states : forall (d : dfa), dwf d -> dfa_ok d ->
@@ -171,6 +178,7 @@ Print Assumptions C13_todfa.
 Print Assumptions C13_eliminate_dead_states.
 Print Assumptions C13_minimize.
 Print Assumptions C13_minimal.
+Print Assumptions C13_minimal_trim.
 Print Assumptions C13_reindex_states.
 Print Assumptions C13_combine_dfa.
 Print Assumptions C13_iso_dfa.
